@@ -132,7 +132,10 @@ func faultsFor(fc *FieldCase) []dataFault {
 		// (an object for a regexp field is taken as the fields of the struct regexp.Regexp, of which none
 		// is exported: it yields the empty expression. No claimed property says it must fail: not injected.)
 		add("invalid regular expression", p, "a(b", p)
-	case KA2:
+	case KMA2:
+		add("wrong length for a fixed-size array", p+".q", []interface{}{uint64(1)}, p+".q")
+		add("wrong type inside a map", p+".p.1", "zz", p+".p.1")
+	case KA2, KPA2:
 		add("wrong length for a fixed-size array", p, []interface{}{uint64(1)}, p)
 		add("wrong length for a fixed-size array", p, []interface{}{uint64(1), uint64(2), uint64(3)}, p)
 		add("wrong type inside a list", p+".1", "zz", p+".1")
